@@ -40,6 +40,10 @@ variable (s : St) (d : Bool)
 @[simp] theorem touch_final : (touch s d).final = s.final := by unfold touch; split <;> (try split) <;> rfl
 @[simp] theorem touch_ioReady : (touch s d).ioReady = s.ioReady := by unfold touch; split <;> (try split) <;> rfl
 @[simp] theorem touch_active : (touch s d).active = s.active := by unfold touch; split <;> (try split) <;> rfl
+@[simp] theorem touch_corpses : (touch s d).corpses = s.corpses := by unfold touch; split <;> (try split) <;> rfl
+@[simp] theorem touch_burying : (touch s d).burying = s.burying := by unfold touch; split <;> (try split) <;> rfl
+@[simp] theorem touch_tbl : (touch s d).tbl = s.tbl := by unfold touch; split <;> (try split) <;> rfl
+@[simp] theorem touch_dtbl : (touch s d).dtbl = s.dtbl := by unfold touch; split <;> (try split) <;> rfl
 @[simp] theorem touch_L : (touch s d).L = s.L := by unfold St.L; simp
 @[simp] theorem touch_markOf : markOf (touch s d) = markOf s := by unfold markOf; simp
 theorem touch_uafDtor_false : (touch s false).uafDtor = s.uafDtor := by unfold touch; split <;> rfl
@@ -73,6 +77,10 @@ variable (s : St) (k : Nat) (t : FThread)
 @[simp] theorem setThr_final : (setThr s k t).final = s.final := rfl
 @[simp] theorem setThr_ioReady : (setThr s k t).ioReady = s.ioReady := rfl
 @[simp] theorem setThr_active : (setThr s k t).active = s.active := rfl
+@[simp] theorem setThr_corpses : (setThr s k t).corpses = s.corpses := rfl
+@[simp] theorem setThr_burying : (setThr s k t).burying = s.burying := rfl
+@[simp] theorem setThr_tbl : (setThr s k t).tbl = s.tbl := rfl
+@[simp] theorem setThr_dtbl : (setThr s k t).dtbl = s.dtbl := rfl
 @[simp] theorem setThr_uafDtor : (setThr s k t).uafDtor = s.uafDtor := rfl
 @[simp] theorem setThr_thr_self : (setThr s k t).thr k = t := by simp [setThr]
 theorem setThr_thr_ne {j : Nat} (h : j ≠ k) : (setThr s k t).thr j = s.thr j := by simp [setThr, h]
@@ -81,7 +89,7 @@ end setThr
 
 /-- unfold one step of the loop thread into its branches (task bodies stay behind `runTop`) -/
 macro "loop_cases" : tactic => `(tactic| (
-  unfold stepLoop stepLoopFD
+  unfold stepLoop stepLoopFD stepLoopG
   split
   all_goals (try simp only [testQuit, leaveLoop, enterLoop])
   all_goals (repeat' split)))
@@ -197,21 +205,21 @@ theorem run_invariant {P : St → Prop} (hstep : ∀ s k, P s → P (step s k)) 
 
 /-- reachable from an initial configuration under some schedule -/
 def Reachable (s : St) : Prop :=
-  ∃ elt wl tbl pre progs sched, s = run (init elt wl tbl pre progs) sched
+  ∃ elt wl tbl dtbl pre progs sched, s = run (init elt wl tbl dtbl pre progs) sched
 
-theorem reachable_init (elt wl : Bool) (tbl) (pre) (progs) : Reachable (init elt wl tbl pre progs) :=
-  ⟨elt, wl, tbl, pre, progs, [], rfl⟩
+theorem reachable_init (elt wl : Bool) (tbl) (dtbl) (pre) (progs) : Reachable (init elt wl tbl dtbl pre progs) :=
+  ⟨elt, wl, tbl, dtbl, pre, progs, [], rfl⟩
 
 theorem reachable_run {s : St} (h : Reachable s) (sched : List Nat) : Reachable (run s sched) := by
-  obtain ⟨elt, wl, tbl, pre, progs, sc, rfl⟩ := h
-  exact ⟨elt, wl, tbl, pre, progs, sc ++ sched, (run_append _ _ _).symm⟩
+  obtain ⟨elt, wl, tbl, dtbl, pre, progs, sc, rfl⟩ := h
+  exact ⟨elt, wl, tbl, dtbl, pre, progs, sc ++ sched, (run_append _ _ _).symm⟩
 
 theorem reachable_step {s : St} (h : Reachable s) (k : Nat) : Reachable (step s k) := reachable_run h [k]
 
 /-- what holds initially and survives every step holds in every reachable state -/
-theorem reachable_invariant {P : St → Prop} (hinit : ∀ elt wl tbl pre progs, P (init elt wl tbl pre progs))
+theorem reachable_invariant {P : St → Prop} (hinit : ∀ elt wl tbl dtbl pre progs, P (init elt wl tbl dtbl pre progs))
     (hstep : ∀ s k, P s → P (step s k)) {s : St} (h : Reachable s) : P s := by
-  obtain ⟨elt, wl, tbl, pre, progs, sc, rfl⟩ := h
-  exact run_invariant hstep (hinit elt wl tbl pre progs) sc
+  obtain ⟨elt, wl, tbl, dtbl, pre, progs, sc, rfl⟩ := h
+  exact run_invariant hstep (hinit elt wl tbl dtbl pre progs) sc
 
 end MuduoVerif.Loop
